@@ -1435,6 +1435,27 @@ impl ObservationService {
         let observation_request = Self::optic_observation_request(request)?;
         let artifact = Self::observe(runtime, provenance, engine, observation_request)
             .map_err(|err| Self::optic_observation_error(request, err))?;
+        // A full provenance coordinate names one commit. The lowering to a tick selector
+        // drops the commit hash, so bind it here: a coordinate naming a commit this history
+        // does not hold at that tick must obstruct, never be answered with another commit.
+        if let EchoCoordinate::Worldline {
+            at: CoordinateAt::Provenance(reference),
+            ..
+        }
+        | EchoCoordinate::Strand {
+            at: CoordinateAt::Provenance(reference),
+            ..
+        } = &request.coordinate
+        {
+            if reference.commit_hash != artifact.resolved.commit_hash {
+                return Err(Self::optic_obstruction(
+                    request,
+                    OpticObstructionKind::ConflictingFrontier,
+                    None,
+                    "provenance coordinate names a commit this history does not hold",
+                ));
+            }
+        }
         let witness_basis = Self::optic_witness_basis(provenance, request, &artifact)?;
         let read_identity = ReadIdentity::new(
             request.optic_id,
